@@ -82,6 +82,16 @@ extern "C" void vh_c17_view_io() {
     size_t n = (size_t)cnt.nelms();
     std::vector<double> buf(n ? n : 1, -1.0);
     for (size_t i = 0; i < n; i++) if (write) { buf[i] = nixsym_f64("w"); nixsym_assume(buf[i] == buf[i]); }
+    // requests come in any order: optionally the same view object has already served a valid request - the largest one that fits at
+    // the same offset (the whole window if the offset itself is outside)
+    if (nixsym_choice("warm", 2) == 1) {
+        NDSize c0(rank, 0), o0 = off; bool fits = true;
+        for (size_t d = 0; d < rank; d++) fits = fits && off[d] < wc[d];
+        if (!fits) o0 = NDSize(rank, 0);
+        for (size_t d = 0; d < rank; d++) c0[d] = wc[d] - o0[d];
+        std::vector<double> tmp((size_t)c0.nelms());
+        v.getData(DataType::Double, tmp.data(), c0, o0);
+    }
     bool threw = false;
     try {
         if (n == 0) throw std::runtime_error("empty request: nothing to transfer");      // zero counts mean "whole view" to the library: not part of this check
